@@ -117,8 +117,34 @@ def f2_dropped_datagram_leaves_nothing(ctx, rule="F2"):
         ctx.ob(rule, d.defp, "dropped-datagram-leaves-nothing-behind", where, ok, detail)
 
 
+def f6_refused_datagram_changes_nothing(ctx):
+    """F6: `a refused packet is simply dropped`: nothing about the session may have changed by the time the filter refuses it. The reply address of an
+    association is state a datagram can change; C02's U3 obligations (replies go to the address recorded in the association; that address is only
+    rewritten behind the filter's accept edge) are re-evaluated: a dispatcher that follows the source address of every *decrypted* datagram lets a
+    replayed copy, which the filter then refuses, take the session's replies away from the client."""
+    from ..engine import Ctx
+    from . import c02
+    busy = ctx.prog.__dict__.setdefault("_importing", set())
+    if "C02" in busy:          # C02 is importing C11's filter rules right now (U10): do not import back
+        return
+    busy.add("C11")
+    try:
+        sub = Ctx(ctx.prog, "C02", ctx.tier)
+        c02.run(sub)
+    finally:
+        busy.discard("C11")
+    n = 0
+    for o in sub.obs:
+        if o.rule == "U3" and ("association-address" in o.key or "reply-address-changed-only-behind-filter" in o.key or "reply-to-recorded-client" in o.key):
+            n += 1
+            parts = o.key.split("|")
+            ctx.ob("F6", parts[1], parts[2], o.where, o.ok, o.detail)
+    ctx.floor("F6", "reply-address obligations of the association (C02 U3)", 2, n)
+
+
 def run(ctx):
     f5_association_removed_only_by_expiry(ctx)
+    f6_refused_datagram_changes_nothing(ctx)
     f2_dropped_datagram_leaves_nothing(ctx)
     prog = ctx.prog
     FT_PATH, FT = filter_type(prog)
